@@ -32,8 +32,9 @@ NOADDR = [-1]
 
 
 def ref_of(r):
+    """r1 and r2 are outputs 1 and 0 of one transaction, r3 is output 1 of the next one (r1 and r3 share the index), ..."""
     n = int(r[1:])
-    return {"txid": [n] * 32, "index": n % 3}
+    return {"txid": [(n + 1) // 2] * 32, "index": n % 2}
 
 
 def entries(assets):
@@ -110,8 +111,13 @@ def random_case(rng, big):
         for c in classes[1:]:
             if rng.random() < 0.3:
                 a.append({"c": c, "n": I(amt())})
-        store.append({"ref": {"txid": [i % 256] * 31 + [i // 256], "index": rng.randint(0, 3)},
-                      "address": rng.choice(addrs), "assets": a, "datum": {"k": "none"}})
+        # neighbours share a transaction id (outputs 0 and 1 of one transaction), every other UTxO shares its output
+        # index with UTxOs of other transactions, and some UTxOs are equal-valued twins of the one before them
+        if store and rng.random() < 0.25:
+            a = copy.deepcopy(store[-1]["assets"])
+        t = i // 2
+        store.append({"ref": {"txid": [t % 256] * 31 + [t // 256], "index": i % 2},
+                      "address": store[-1]["address"] if store and rng.random() < 0.5 else rng.choice(addrs), "assets": a, "datum": {"k": "none"}})
     qs = []
     nb = rng.randint(1, 4)
     names = rng.sample(["zeta", "alpha", "mid", "beta", "omega"], nb)
